@@ -8,6 +8,7 @@ ASSUMPTIONS = ["ThreadInfo::create stub returns an arbitrary register file per c
                "copy_from_process / get_stack_info contract stubs as in C06"]
 TL = {"XMM_SAVE_AREA32": 100, "MINIDUMP_EXCEPTION": 20, "alloc_from_array": 20}
 HARNESSES = [
+    H("c19_dump::g_dump_fresh", desc="capture window: every stream that reads target memory is produced while the target is stopped; only the soft-error stream follows the resume", loops={"MINIDUMP_EXCEPTION": 20, "alloc_from_array": 8}, timeout=2400, est_gb=8, mem_gb=24),
     H("c04_registers::c04_ptrace_regs_to_context", desc="ptrace register files -> CONTEXT_AMD64, all values symbolic", loops={"XMM_SAVE_AREA32": 100}),
     H("c06_stacks::c04_tl_1thread_requested", desc="thread list, 1 thread: its record carries its id, its registers, its stack", timeout=2400, loops=TL, est_gb=14, mem_gb=30, expect_unsat_covers=("window clipped at the mapping start", "window clipped at the mapping end", "ip outside every mapping")),
     H("c06_stacks::c04_tl_2threads_requested_absent", desc="2 threads, no crash context, blamed thread not listed", timeout=3400, loops=TL, tier="thorough", mem_gb=30, expect_unsat_covers=("window clipped at the mapping start", "window clipped at the mapping end", "ip outside every mapping")),
